@@ -347,6 +347,11 @@ func (n *Nodis) BLPop(timeout time.Duration, keys ...string) (string, []byte) {
 		}
 		n.addBlockKey(key, c)
 	}
+	// a timeout of zero blocks until an element arrives
+	var timer <-chan time.Time
+	if timeout != 0 {
+		timer = time.After(timeout)
+	}
 	select {
 	case key := <-c:
 		results := n.LPop(key, 1)
@@ -356,7 +361,7 @@ func (n *Nodis) BLPop(timeout time.Duration, keys ...string) (string, []byte) {
 			})
 			return key, results[0]
 		}
-	case <-time.After(timeout):
+	case <-timer:
 		break
 	}
 	return "", nil
@@ -375,6 +380,11 @@ func (n *Nodis) BRPop(timeout time.Duration, keys ...string) (string, []byte) {
 		}
 		n.addBlockKey(key, c)
 	}
+	// a timeout of zero blocks until an element arrives
+	var timer <-chan time.Time
+	if timeout != 0 {
+		timer = time.After(timeout)
+	}
 	select {
 	case key := <-c:
 		results := n.RPop(key, 1)
@@ -384,7 +394,7 @@ func (n *Nodis) BRPop(timeout time.Duration, keys ...string) (string, []byte) {
 			})
 			return key, results[0]
 		}
-	case <-time.After(timeout):
+	case <-timer:
 		break
 	}
 	return "", nil
